@@ -3,6 +3,10 @@
 
 mod alpha;
 mod c01;
+mod c03;
+mod c04;
+mod c17;
+mod c18;
 mod refm;
 mod report;
 
@@ -59,6 +63,10 @@ fn main() {
       match id.as_str() {
         "C01" => c01::replay(case, false),
         "C02" => c01::replay(case, true),
+        "C03" => c03::replay(case),
+        "C04" => c04::replay(case, &api),
+        "C17" => c17::replay(case),
+        "C18" => c18::replay(case),
         _ => { eprintln!("no replay for {}", id); std::process::exit(2); }
       }
     };
@@ -83,6 +91,10 @@ fn main() {
   let code = match id.as_str() {
     "C01" => c01::run(&ctx, false),
     "C02" => c01::run(&ctx, true),
+    "C03" => c03::run(&ctx),
+    "C04" => c04::run(&ctx),
+    "C17" => c17::run(&ctx),
+    "C18" => c18::run(&ctx),
     _ => { eprintln!("unknown property {}", id); 2 }
   };
   std::process::exit(code);
